@@ -258,10 +258,15 @@ pub fn exec(c: &C18Case, out: &mut CaseOut) -> Result<(), Fail> {
         let f = insts[node].cfg.num_indirect as usize;
         let fan = absorb(evs, node, &mut net);
         max_fanout = max_fanout.max(fan);
-        if fan > (about_receiver + 2) * f + 2 {
+        // what one datagram can legitimately cause: one direct reply / relay (Ack, Feed, IndirectPing,
+        // IndirectAck, ForwardedAck, TurnUndead), plus one gossip round (num_indirect_probes datagrams) per
+        // update about the receiver's own address (suspicion: refutation gossip; Down: renewal gossip), plus
+        // one gossip round when the datagram is a TurnUndead (renewal)
+        let tu = usize::from(kind == "TurnUndead");
+        if fan > (about_receiver + tu) * f + 1 {
             return Err(Fail::new(
                 "C18:fan-out",
-                format!("delivering one {kind} to node{node} caused {fan} new datagrams (num_indirect_probes {f}, {about_receiver} updates about the receiver)"),
+                format!("delivering one {kind} to node{node} caused {fan} new datagrams, more than one reply plus one gossip round per update about the receiver (num_indirect_probes {f}, {about_receiver} updates about the receiver's address)"),
             ));
         }
         if deliveries > budget {
@@ -328,7 +333,7 @@ impl Part for CascadePart {
             .boxed()
     }
     fn cases(&self, tier: Tier) -> u64 {
-        tier.pick(600_000, 20_000_000)
+        tier.pick(3_000_000, 60_000_000)
     }
     fn exec(&self, c: &C18Case, out: &mut CaseOut) -> Result<(), Fail> {
         exec(c, out)
